@@ -1,7 +1,7 @@
 #!/bin/sh
 # tools/try_seed.sh <patch.diff> <ID> [<ID>...]: apply a seeded change to /repo, run the quick checks, undo it.
 patch="$1"; shift
-git -C /repo apply "$patch" || { echo "patch does not apply"; exit 2; }
+git -C /repo apply "$patch" 2>/dev/null || (cd /repo && patch -p1 -F3 -s --no-backup-if-mismatch < "$patch") || { echo "patch does not apply"; git -C /repo checkout -- .; exit 2; }
 for id in "$@"; do
   /verif/check "$id" --tier quick > /tmp/try_seed.$$.log 2>&1
   rc=$?
